@@ -30,6 +30,7 @@ def encode(pick, enc, hexbm, cfgs=None):
 
         def rp():
             return {'kind': 'encode', 'args': {'msg': msg_witness(msg, elems, ev), 'enc': enc, 'hexbm': hexbm, 'cfg': cfgs or 'packaged'}}
+        core.set_fallback(rp, 'C02/concretised')
         over = [e for e in elems if e.kind == 'var' and e.src_len is not None]
         too_long = s_or(*[e.src_len > 10 ** flen(e.cfg) - 1 for e in over]) if over else False
         try:
@@ -68,6 +69,7 @@ def decode(pick, enc, hexbm, cfgs=None):
 
         def rp():
             return {'kind': 'decode', 'args': {'msg': msg_witness(msg, elems, ev), 'enc': enc, 'hexbm': hexbm, 'cfg': cfgs or 'packaged'}}
+        core.set_fallback(rp, 'C02/concretised')
         with guard('loads of a message in the documented layout', 'C02/decode-refused', rp):
             d = iso.loads(wire, encoding=enc, hex_bitmap=hexbm, iso_config=cfgs)
         require(d.get('MTI') == msg['MTI'], 'MTI', key='C02/decode-value', replay=rp)
@@ -125,6 +127,7 @@ def de43_plumbing(enc):
         if other:
             msg['DE%d' % other] = 'Z' * cfgs[str(other)]['field_length']
         rp = {'kind': 'decode', 'args': {'msg': msg, 'enc': enc, 'hexbm': False, 'cfg': 'packaged'}}
+        core.set_fallback(rp, 'C02/concretised')
         wire = ref.ref_encode(msg, cfgs, enc, False)
         want, _ = ref.ref_decode(wire, cfgs, enc, False)
         with guard('loads', 'C02/decode-refused', rp):
